@@ -19,6 +19,7 @@ Python builds objects, calls the API and projects results; every verdict is TLC'
 """
 import os
 import sys
+import time
 import types
 
 from .. import tlc
@@ -41,6 +42,7 @@ CONSTANTS NF = %(nf)d
  NC = %(nc)d
  Seed = %(seed)d
  PipeLen = %(pipelen)d
+ NPipe = %(npipe)d
  AllCK = %(allck)s
 """
 
@@ -84,6 +86,7 @@ class _Lib:
         for l in FEATURES.values():
             allf |= set(l)
         self.all_features = sorted(allf)
+        self.quality_metrics = list(FEATURES["QUALITY_METRICS"])
         self.deprecated = {f for f, (_, end) in FEATURES_VERSIONS.items() if end is not None}
         self.mixin = {
             "oneshot_planner": mixins.OneshotPlannerMixin,
@@ -449,6 +452,7 @@ class Batch:
         return {
             "id": self.id,
             "nf": len(self.universe),
+            "qm": sorted(self.fid[f] for f in self.L.quality_metrics),
             "stats": bool(stats),
             "engines": self.engines,
             "prefs": self.prefs,
@@ -497,6 +501,28 @@ def signature(batch, rec, clause, stage, x):
     return "|".join(parts)
 
 
+def printed_values(stdout):
+    """PrintT output of the judge; TLC wraps long values over several lines."""
+    out, cur = [], None
+    for line in stdout.splitlines():
+        ls = line.strip()
+        if cur is None:
+            if not ls.startswith("<<"):
+                continue
+            cur = ls
+        else:
+            cur += " " + ls
+        if cur.count("<<") == cur.count(">>") and cur.count("{") == cur.count("}"):
+            try:
+                out.append(tlc.parse_value(cur))
+            except ValueError:
+                pass
+            cur = None
+        elif len(cur) > 20000:
+            cur = None
+    return out
+
+
 def judge(ctx, label, batches, stats_all):
     d = ctx.sub("judge-" + label)
     path = os.path.join(d, "batches.ndjson")
@@ -511,8 +537,8 @@ def judge(ctx, label, batches, stats_all):
     ctx.cov["traces_validated_against_impl"] += sum(len(b.reqs) for b in batches)
     byid = {b.id: b for b in batches}
     lacks, outs = set(), set()
-    for p in res.printed:
-        if not p:
+    for p in printed_values(res.stdout):
+        if not isinstance(p, list) or not p:
             continue
         if p[0] == "FAIL":
             b = byid[p[1]]
@@ -535,12 +561,16 @@ def judge(ctx, label, batches, stats_all):
 
 
 # ----------------------------------------------------------------------------------------
-def run(ctx):
-    q = ctx.quick
-    L = lib()
-    # ---- T1: design check -------------------------------------------------------------
+def bounds(ctx):
+    if ctx.quick:
+        return dict(nf=7, groups=16, nc=24, pipelen=2, npipe=5, allck="FALSE")
+    return dict(nf=9, groups=8, nc=200, pipelen=3, npipe=7, allck="TRUE")
+
+
+def design_check(ctx):
+    """T1: MCFactory, exhaustive."""
     d = ctx.sub("t1")
-    if q:
+    if ctx.quick:
         cfgs = [
             dict(menu="all", three="FALSE", maxpipe=1, feats='{"f"}', overlap="TRUE"),
             dict(menu="comp", three="FALSE", maxpipe=2, feats='{"f"}', overlap="FALSE"),
@@ -564,15 +594,15 @@ def run(ctx):
             )
         if res.distinct < 100:
             raise MachineryError("T1 explored only %d states" % res.distinct)
-    # ---- G1: TLC enumerates requests and registry configurations -------------------------
-    nf = 7 if q else 9
-    groups = 8 if q else 4
-    nc = 24 if q else 160
+
+
+def enumerate_cases(ctx, bnd):
+    """G1: FactoryEnum; returns (universe record, kind requests, problem requests, configurations)."""
     d = ctx.sub("enum")
     outs = {k: os.path.join(d, k + ".ndjson") for k in ("univ", "reqs", "probs", "cfgs")}
     res = tlc.run_tlc(
         "FactoryEnum",
-        ENUM_CFG % dict(nf=nf, groups=groups, nc=nc, seed=ctx.seed % 100000, pipelen=2 if q else 3, allck="FALSE" if q else "TRUE"),
+        ENUM_CFG % dict(bnd, seed=ctx.seed % 100000),
         d,
         env={"OUT_UNIV": outs["univ"], "OUT_REQS": outs["reqs"], "OUT_PROBS": outs["probs"], "OUT_CFGS": outs["cfgs"]},
         workers=1,
@@ -584,33 +614,40 @@ def run(ctx):
     reqs = tlc.read_ndjson(outs["reqs"])
     probs = tlc.read_ndjson(outs["probs"])
     cfgs = sorted(tlc.read_ndjson(outs["cfgs"]), key=lambda c: c["id"])
-    universe = univ["universe"]
-    key = lambda r: (r["mode"], r["call"], sorted(r["f"]), r["ck"], r["pk"], r["og"], r["ag"], r["cks"])
-    reqs.sort(key=key)
+    reqs.sort(key=lambda r: (r["mode"], r["call"], sorted(r["f"]), r["ck"], r["pk"], r["og"], r["ag"], r["cks"]))
     probs.sort(key=lambda r: (r["mode"], r["og"], sorted(r["ing"])))
-    if len(reqs) < 1000 or len(cfgs) != nc or not probs:
+    if len(reqs) < 1000 or len(cfgs) != bnd["nc"] or not probs:
         raise MachineryError("enumeration too small: %d requests, %d problem requests, %d configurations" % (len(reqs), len(probs), len(cfgs)))
-    # ---- T2: the built-in registry ---------------------------------------------------------
+    return univ, reqs, probs, cfgs
+
+
+def collect(ctx, bnd, univ, reqs, probs, cfgs):
+    """T2: issue every request on fresh Environments; returns the batches."""
+    q = ctx.quick
+    universe = univ["universe"]
+    # the built-in registry: every request under the default and the reversed preference list; under a
+    # strict sub-list and a rotation every request (thorough) / the kind slices 0, 4, 8, .. (quick)
     batches = []
     b0 = Batch(ctx, 0, universe, [])
     for f in universe:
         if all(b0.fid[f] in e["feats"] for e in b0.engines):
             raise MachineryError("universe feature %s is supported by every built-in engine (does not straddle)" % f)
-    for scheme in (["default", "reversed", "every_other"] if q else univ["schemes"]):
-        if "mocks" in scheme:
-            continue
+    for scheme in ["default", "reversed", "every_other", "rotated"]:
         p = b0.install(scheme)
+        part = q and scheme in ("every_other", "rotated")
         for r in reqs:
-            b0.kind_request(r, p)
+            if not part or r["grp"] % 4 == 0:
+                b0.kind_request(r, p)
         for r in probs:
-            b0.problem_request(r, p)
+            if not part or r["grp"] % 4 == 0:
+                b0.problem_request(r, p)
     batches.append(b0)
-    # ---- T2: registries with mock engines ----------------------------------------------------
+    # registries with three mock engines: one kind slice each, two preference-list schemes
     for c in cfgs:
         b = Batch(ctx, c["id"], universe, c["mocks"])
         if len(b.mock_names) < len(c["mocks"]):
             raise MachineryError("mock engines were not registered: %r" % b.names)
-        g = c["id"] % groups
+        g = c["id"] % bnd["groups"]
         for scheme in c["schemes"]:
             p = b.install(scheme)
             for r in reqs:
@@ -620,6 +657,21 @@ def run(ctx):
                 if r["grp"] == g:
                     b.problem_request(r, p)
         batches.append(b)
+    return batches
+
+
+def run(ctx):
+    q = ctx.quick
+    t0 = time.time()
+    design_check(ctx)
+    t_t1 = time.time()
+    bnd = bounds(ctx)
+    univ, reqs, probs, cfgs = enumerate_cases(ctx, bnd)
+    universe = univ["universe"]
+    t_enum = time.time()
+    batches = collect(ctx, bnd, univ, reqs, probs, cfgs)
+    b0 = batches[0]
+    t_req = time.time()
     nreq = sum(len(b.reqs) for b in batches)
     ctx.cov["evaluations"] += nreq
     # outcomes as observed (counting only; verdicts are TLC's)
@@ -640,6 +692,9 @@ def run(ctx):
         raise MachineryError("vacuous run: clauses of Qualifies never decisive: %r" % sorted(need - lacks))
     if not {"engine", "none", "pipe-pipeline", "pipe-none"} <= outcomes:
         raise MachineryError("vacuous run: outcomes never demanded by the specification: %r" % sorted(outcomes))
+    t_judge = time.time()
+    ctx.notes["phase_seconds"] = {"t1": round(t_t1 - t0, 1), "enum": round(t_enum - t_t1, 1), "requests": round(t_req - t_enum, 1), "judge": round(t_judge - t_req, 1)}
+    print("C32 phases (s): %r; observed outcomes: %r" % (ctx.notes["phase_seconds"], seen))
     ctx.notes["decisive_clauses"] = sorted(lacks)
     ctx.notes["specified_outcomes"] = sorted(outcomes)
     ctx.cov["rule"] = (
@@ -649,7 +704,7 @@ def run(ctx):
         "profile space of %d); the built-in registry answers all of them under %d preference lists, each mock registry one kind "
         "slice (1/%d) under 2 preference lists; %d requests issued on %d fresh Environments, every answer judged by Factory!Select / Pipe. "
         "Non-trivial = the factory returned an engine or a pipeline."
-        % (nf, universe, univ["kinds"], 2 if q else 3, len(probs), nc, univ["space"], len(b0.prefs), groups, nreq, len(batches))
+        % (bnd["nf"], universe, univ["kinds"], bnd["pipelen"], len(probs), bnd["nc"], univ["space"], len(b0.prefs), bnd["groups"], nreq, len(batches))
     )
     ctx.cov["exhaustive"] = True
     ctx.assumptions += [
